@@ -3,11 +3,20 @@ of the implementation's parse results, Gallina term emitters.
 
 AST (mirrors coq/Model/ParseX86.v):
   operand := ("reg", name) | ("imm", z) | ("id", name) | ("mem", disp, base, index, scale)
+             | ("seg", segment, sdisp, base, index, scale)
+             | ("star", ("reg", name) | sdisp)                      *%rax  *8  *foo@GOT   (memory_abs)
+             written forms whose extras the code drops (see code_view):
+             | ("regk", name, mask, zeroing) | ("memk", disp, base, index, scale, mask)
+             | ("idr", name, relocation, offset text | None) | ("numlbl", digits, suffix)
+             and disp ("idr", name, relocation, offset text | None)
   disp    := None | ("int", z) | ("id", name);  base/index := None | name;  scale in 1,2,4,8
+  sdisp   := None | ("num", text as written) | ("id", name, relocation-without-@ | None, offset text | None)
   instruction := (mnemonic, [operand])
 Layout (mirrors Model `layout` / `oplay`):
-  oplay  := dict(hex, upper, omit1, w_d, w_lp, w_b, w_c1, w_i, w_c2, w_s)   (w_* = whitespace strings)
-  layout := dict(lead, gap, ops=[(oplay, w_before_comma, w_after_comma)], trail, comment=None|(slashes, text))
+  oplay  := dict(hex, upper, omit1, w_d, w_lp, w_b, w_c1, w_i, w_c2, w_s, w_sg1, w_sg2, w_at, w_pl1, w_pl2)   (w_* = whitespace strings)
+           plus k = dict(star, w_st, kpct, wk1..wk7)  (mirror of `klay`)
+  layout := dict(lead, gap, ops=[(oplay, w_before_comma, w_after_comma)], trail, comment=None|(slashes, text),
+                 prefixes=[(is_data32, blanks)])
 """
 
 WS = " \t\r"
@@ -99,14 +108,96 @@ def gen_mem(rng, pos):
     return ("mem", disp, base, index, scale)
 
 
+SEGS = ["fs", "gs", "es", "ds", "cs", "ss", "FS", "GS"]
+RELOCS = ["TPOFF", "tpoff", "NTPOFF", "DTPOFF", "GOTTPOFF", "GOTPCREL", "PLT", "GOT", "gotoff", "SIZE", "a", "Zz"]
+
+
+def gen_numtxt(rng):
+    """A number exactly as written: [-]digits (leading zeros allowed) or [-]0x hex digits (either case)."""
+    r = rng.random()
+    if r < 0.15:
+        t = rng.choice(["0", "00", "010", "0x0", "0x00ff", "0xFf", "40", "0x28", "8", "16", "0x10", "007"])
+    elif r < 0.6:
+        v = gen_int(rng, signed=False)
+        t = ("0x%x" % v) if rng.random() < 0.5 else "%d" % v
+        if t.startswith("0x") and rng.random() < 0.4:
+            t = "0x" + t[2:].upper()
+    elif r < 0.8:
+        t = "".join(rng.choice("0123456789") for _ in range(rng.randint(1, 6)))
+    else:
+        t = "0x" + "".join(rng.choice("0123456789abcdefABCDEF") for _ in range(rng.randint(1, 8)))
+    if rng.random() < 0.3:
+        t = "-" + t
+    return t
+
+
+def gen_offtxt(rng):
+    t = rng.choice(["8", "0", "16", "4096", "007"]) if rng.random() < 0.6 else "".join(rng.choice("0123456789") for _ in range(rng.randint(1, 5)))
+    return ("-" + t) if rng.random() < 0.5 else t
+
+
+def gen_seg(rng):
+    """%seg:disp(base,index,scale) -- every displacement form with every base/index/scale shape."""
+    sg = rng.choice(SEGS) if rng.random() < 0.85 else gen_reg(rng)
+    has_b, has_i = rng.random() < 0.6, rng.random() < 0.4
+    r = rng.random()
+    if r < 0.2 and (has_b or has_i):
+        d = None
+    elif r < 0.65:
+        d = ("num", gen_numtxt(rng))
+    else:
+        rel = rng.choice(RELOCS) if rng.random() < 0.6 else None
+        off = gen_offtxt(rng) if (rel is not None and rng.random() < 0.6) else None
+        d = ("id", gen_ident(rng), rel, off)
+    return ("seg", sg, d, gen_reg(rng) if has_b else None, gen_reg(rng) if has_i else None,
+            rng.choice([1, 2, 4, 8]) if has_i else 1)
+
+
+MASKS = ["k1", "k2", "k7", "k0", "K3", "k", "1", "zmm1"]
+
+
+def gen_idr(rng):
+    rel = rng.choice(RELOCS)
+    return (gen_ident(rng), rel, gen_offtxt(rng) if rng.random() < 0.5 else None)
+
+
+def gen_paren_mem(rng):
+    while True:
+        m = gen_mem(rng, 1)
+        if m[2] is not None or m[3] is not None:
+            return m
+
+
 def gen_operand(rng, pos):
     r = rng.random()
-    if r < 0.3:
+    if r < 0.20:
         return ("reg", gen_reg(rng))
-    if r < 0.5:
+    if r < 0.26:
+        return ("regk", gen_reg(rng), rng.choice(MASKS), rng.random() < 0.5)
+    if r < 0.40:
         return ("imm", gen_int(rng))
-    if r < 0.58:
+    if r < 0.46:
         return ("id", gen_ident(rng))
+    if r < 0.51:
+        return ("idr",) + gen_idr(rng)
+    if r < 0.55 and pos == 0:
+        return ("numlbl", str(rng.randint(0, 99)) if rng.random() < 0.8 else "0" + str(rng.randint(0, 9)), rng.choice("bfbfBF"))
+    if r < 0.68:
+        return gen_seg(rng)
+    if r < 0.76:
+        q = rng.random()
+        if q < 0.4:
+            return ("star", ("reg", gen_reg(rng)))
+        if q < 0.65:
+            return ("star", ("num", gen_numtxt(rng)))
+        rel = rng.choice(RELOCS) if rng.random() < 0.5 else None
+        return ("star", ("id", gen_ident(rng), rel, gen_offtxt(rng) if (rel is not None and rng.random() < 0.5) else None))
+    if r < 0.82:
+        m = gen_paren_mem(rng)
+        return ("memk", m[1], m[2], m[3], m[4], rng.choice(MASKS))
+    if r < 0.88:
+        m = gen_paren_mem(rng)
+        return ("mem", ("idr",) + gen_idr(rng), m[2], m[3], m[4])
     return gen_mem(rng, pos)
 
 
@@ -127,7 +218,12 @@ def gen_ast(rng):
 def gen_oplay(rng):
     return dict(hex=rng.random() < 0.5, upper=rng.random() < 0.4, omit1=rng.random() < 0.6, dollar=rng.random() < 0.5,
                 w_d=gen_ws(rng) if rng.random() < 0.2 else "",
-                w_lp=gen_ws(rng), w_b=gen_ws(rng), w_c1=gen_ws(rng), w_i=gen_ws(rng), w_c2=gen_ws(rng), w_s=gen_ws(rng))
+                w_lp=gen_ws(rng), w_b=gen_ws(rng), w_c1=gen_ws(rng), w_i=gen_ws(rng), w_c2=gen_ws(rng), w_s=gen_ws(rng),
+                w_sg1=gen_ws(rng) if rng.random() < 0.25 else "", w_sg2=gen_ws(rng) if rng.random() < 0.25 else "",
+                w_at=gen_ws(rng) if rng.random() < 0.2 else "", w_pl1=gen_ws(rng) if rng.random() < 0.2 else "",
+                w_pl2=gen_ws(rng) if rng.random() < 0.2 else "",
+                k=dict(star=rng.random() < 0.2, w_st=gen_ws(rng) if rng.random() < 0.2 else "", kpct=rng.random() < 0.8,
+                       **{"wk%d" % i: (gen_ws(rng) if rng.random() < 0.2 else "") for i in range(1, 8)}))
 
 
 def gen_comment_text(rng):
@@ -143,9 +239,12 @@ def gen_layout(rng, nops):
     c = None
     if rng.random() < 0.4:
         c = (rng.random() < 0.4, gen_comment_text(rng))
+    pre = []
+    if rng.random() < 0.08:
+        pre = [(rng.random() < 0.4, gen_ws(rng, allow_empty=False)) for _ in range(rng.randint(1, 3))]
     return dict(lead=gen_ws(rng), gap=gen_ws(rng, allow_empty=False),
                 ops=[(gen_oplay(rng), gen_ws(rng), gen_ws(rng)) for _ in range(nops)],
-                trail=gen_ws(rng), comment=c)
+                trail=gen_ws(rng), comment=c, prefixes=pre)
 
 
 # ------------------------------------------------------------------------------------------ render (mirror of Coq)
@@ -158,19 +257,8 @@ def render_int(lo, z):
     return sign + "%d" % a
 
 
-def render_op(first, lo, o):
-    k = o[0]
-    if k == "reg":
-        return "%" + o[1]
-    if k == "imm":
-        return "$" + render_int(lo, o[1])
-    if k == "id":
-        return ("$" if (lo["dollar"] or not first) else "") + o[1]
-    _, disp, base, index, scale = o
-    d = "" if disp is None else (render_int(lo, disp[1]) if disp[0] == "int" else disp[1])
-    if base is None and index is None:
-        return d
-    s = d + (lo["w_d"] if disp is not None else "") + "(" + lo["w_lp"]
+def render_paren(lo, base, index, scale):
+    s = "(" + lo["w_lp"]
     if base is not None:
         s += "%" + base + lo["w_b"]
     if index is not None:
@@ -180,18 +268,86 @@ def render_op(first, lo, o):
     return s + ")"
 
 
+def render_sdisp(lo, d):
+    if d is None:
+        return ""
+    if d[0] == "num":
+        return d[1]
+    _, n, rel, off = d
+    s = n
+    if rel is not None:
+        s += lo["w_at"] + "@" + rel
+        if off is not None:
+            s += lo["w_pl1"] + (off if off.startswith("-") else "+" + lo["w_pl2"] + off)
+    return s
+
+
+def render_mask(lo, mask, zero):
+    k = lo["k"]
+    s = k["wk1"] + "{" + k["wk2"] + (("%" + k["wk3"]) if k["kpct"] else "") + mask + k["wk4"] + "}"
+    if zero:
+        s += k["wk5"] + "{" + k["wk6"] + "z" + k["wk7"] + "}"
+    return s
+
+
+def render_mem(lo, disp, base, index, scale):
+    s = ("*" + lo["k"]["w_st"]) if lo["k"]["star"] else ""
+    if disp is not None:
+        if disp[0] == "int":
+            s += render_int(lo, disp[1])
+        elif disp[0] == "id":
+            s += disp[1]
+        else:
+            s += render_sdisp(lo, ("id", disp[1], disp[2], disp[3]))
+        s += lo["w_d"]
+    return s + render_paren(lo, base, index, scale)
+
+
+def render_op(first, lo, o):
+    k = o[0]
+    if k == "reg":
+        return "%" + o[1]
+    if k == "regk":
+        return "%" + o[1] + render_mask(lo, o[2], o[3])
+    if k == "memk":
+        return render_mem(lo, o[1], o[2], o[3], o[4]) + render_mask(lo, o[5], False)
+    if k == "star":
+        x = o[1]
+        return "*" + lo["k"]["w_st"] + ("%" + x[1] if x[0] == "reg" else render_sdisp(lo, x))
+    if k == "idr":
+        return ("$" if (lo["dollar"] or not first) else "") + render_sdisp(lo, ("id", o[1], o[2], o[3]))
+    if k == "numlbl":
+        return o[1] + o[2]
+    if k == "seg":
+        _, sg, d, base, index, scale = o
+        s = "%" + sg + lo["w_sg1"] + ":" + lo["w_sg2"] + render_sdisp(lo, d)
+        if base is not None or index is not None:
+            s += (lo["w_d"] if d is not None else "") + render_paren(lo, base, index, scale)
+        return s
+    if k == "imm":
+        return "$" + render_int(lo, o[1])
+    if k == "id":
+        return ("$" if (lo["dollar"] or not first) else "") + o[1]
+    _, disp, base, index, scale = o
+    if base is None and index is None:
+        return render_int(lo, disp[1])
+    return render_mem(lo, disp, base, index, scale)
+
+
 def render_comment(c):
     if c is None:
         return ""
     return ("//" if c[0] else "#") + c[1]
 
 
-DEFAULT_OPLAY = dict(hex=False, upper=False, omit1=False, dollar=False, w_d="", w_lp="", w_b="", w_c1="", w_i="", w_c2="", w_s="")
+DEFAULT_OPLAY = dict(hex=False, upper=False, omit1=False, dollar=False, w_d="", w_lp="", w_b="", w_c1="", w_i="", w_c2="", w_s="",
+                     w_sg1="", w_sg2="", w_at="", w_pl1="", w_pl2="",
+                     k=dict(star=False, w_st="", kpct=False, wk1="", wk2="", wk3="", wk4="", wk5="", wk6="", wk7=""))
 
 
 def render_line(lay, ast):
     m, ops = ast
-    s = lay["lead"] + m
+    s = lay["lead"] + "".join(("data32" if p else "data16") + w for p, w in lay.get("prefixes", [])) + m
     lays = list(lay["ops"])
     for i, o in enumerate(ops):
         lo, wb, wa = lays[i] if i < len(lays) else (DEFAULT_OPLAY, "", "")
@@ -204,17 +360,89 @@ def render_line(lay, ast):
 
 
 # ------------------------------------------------------------------------------------------ canonical strings
+def _opt(x):
+    return "-" if x is None else x
+
+
+def canon_sdisp(d):
+    if d is None:
+        return "-"
+    if d[0] == "num":
+        return "N(" + d[1] + ")"
+    return "L(%s;%s;%s)" % (d[1], _opt(d[2]), _opt(d[3]))
+
+
+def canon_disp(d):
+    if d is None:
+        return "-"
+    if d[0] == "int":
+        return "%d" % d[1]
+    if d[0] == "id":
+        return "L(" + d[1] + ")"
+    return "LR(%s;%s;%s)" % (d[1], d[2], _opt(d[3]))
+
+
+def code_view(o):
+    """What the implementation keeps of a written operand (mirror of Coq code_view)."""
+    k = o[0]
+    if k == "regk":
+        return ("reg", o[1])
+    if k == "memk":
+        return code_view(("mem", o[1], o[2], o[3], o[4]))
+    if k == "mem" and o[1] is not None and o[1][0] == "idr":
+        return ("mem", ("id", o[1][1]), o[2], o[3], o[4])
+    if k == "idr":
+        return ("id", o[1])
+    if k == "numlbl":
+        return ("id", o[1])
+    return o
+
+
+def code_view_ast(ast):
+    return (ast[0], [code_view(o) for o in ast[1]])
+
+
+def canon_code(ast):
+    return canon_instr(code_view_ast(ast))
+
+
+def lossy_classes(ast):
+    """Which kinds of written information the code drops on this line (observations, not violations)."""
+    out = set()
+    for o in ast[1]:
+        if o[0] in ("regk", "memk"):
+            out.add("opmask-dropped")
+        if o[0] == "idr" or (o[0] in ("mem", "memk") and o[1] is not None and o[1][0] == "idr"):
+            out.add("relocation-dropped")
+        if o[0] == "numlbl":
+            out.add("numeric-label-direction-dropped")
+    return out
+
+
 def canon_op(o):
     k = o[0]
     if k == "reg":
         return "R(" + o[1] + ")"
+    if k == "regk":
+        return "RK(%s;%s;%s)" % (o[1], o[2], "z" if o[3] else "-")
+    if k == "memk":
+        return "MK(%s;%s;%s;%d;%s)" % (canon_disp(o[1]), _opt(o[2]), _opt(o[3]), o[4], o[5])
+    if k == "idr":
+        return "LR(%s;%s;%s)" % (o[1], o[2], _opt(o[3]))
+    if k == "numlbl":
+        return "NL(%s;%s)" % (o[1], o[2])
+    if k == "star":
+        x = o[1]
+        return "*R(" + x[1] + ")" if x[0] == "reg" else "*" + canon_sdisp(x)
     if k == "imm":
         return "I(%d)" % o[1]
     if k == "id":
         return "L(" + o[1] + ")"
+    if k == "seg":
+        _, sg, disp, base, index, scale = o
+        return "S(%s;%s;%s;%s;%d)" % (sg, canon_sdisp(disp), _opt(base), _opt(index), scale)
     _, disp, base, index, scale = o
-    d = "-" if disp is None else ("%d" % disp[1] if disp[0] == "int" else "L(" + disp[1] + ")")
-    return "M(%s;%s;%s;%d)" % (d, "-" if base is None else base, "-" if index is None else index, scale)
+    return "M(%s;%s;%s;%d)" % (canon_disp(disp), _opt(base), _opt(index), scale)
 
 
 def canon_instr(ast):
@@ -240,6 +468,10 @@ def impl_operand(o):
         if o.offset is not None or o.relocation is not None:
             return ("other", "identifier with extras %r" % (o,))
         return ("id", o.name)
+    if isinstance(o, MemoryOperand) and o.segment_ext is not None:
+        return impl_segment(o)
+    if isinstance(o, MemoryOperand) and isinstance(o.offset, list):
+        return impl_star(o)
     if isinstance(o, MemoryOperand):
         if o.segment_ext is not None or o.mask is not None or o.pre_indexed or o.post_indexed or o.indexed_val is not None:
             return ("other", "memory with extras %r" % (o,))
@@ -264,6 +496,91 @@ def impl_operand(o):
             return ("other", "scale %r" % (o.scale,))
         return ("mem", disp, regs[0], regs[1], o.scale)
     return ("other", repr(o))
+
+
+def _plain_reg_dict(d):
+    """{'name': n} as left by pyparsing inside segment_ext -> n; anything else -> None"""
+    if isinstance(d, dict) and set(d.keys()) == {"name"} and isinstance(d["name"], str):
+        return d["name"]
+    return None
+
+
+def _impl_sdisp(off):
+    """{'value': text} | {'identifier': {...}} as left by pyparsing -> sdisp or None"""
+    if not isinstance(off, dict):
+        return None
+    if set(off.keys()) == {"value"} and isinstance(off["value"], str):
+        return ("num", off["value"])
+    if set(off.keys()) == {"identifier"} and isinstance(off["identifier"], dict):
+        ident = off["identifier"]
+        if not set(ident.keys()) <= {"name", "relocation", "value", "offset"} or not isinstance(ident.get("name"), str):
+            return None
+        rel = ident.get("relocation")
+        if rel is not None:
+            if not (isinstance(rel, str) and rel.startswith("@")):
+                return None
+            rel = rel[1:]
+        val = ident.get("value")
+        if ("value" in ident) != ("offset" in ident) or (val is not None and ident["offset"] != [val]):
+            return None
+        return ("id", ident["name"], rel, val)
+    return None
+
+
+def impl_star(o):
+    """memory_abs (`*%rax`, `*8`, `*foo@GOT`): MemoryOperand(offset=[<raw pyparsing dict>]) -> ("star", ...)"""
+    bad = ("other", "indirect operand %r" % (o,))
+    if o.base is not None or o.index is not None or o.scale != 1 or o.mask is not None or o.pre_indexed or o.post_indexed \
+            or o.indexed_val is not None or len(o.offset) != 1:
+        return bad
+    x = o.offset[0]
+    n = _plain_reg_dict(x)
+    if n is not None:
+        return ("star", ("reg", n))
+    d = _impl_sdisp(x)
+    return bad if d is None else ("star", d)
+
+
+def impl_segment(o):
+    """MemoryOperand(base=Register(<segment>), offset=None, index=None, scale=1, segment_ext=[ext]) with
+       ext = '<number as written>' | {'offset': {'value': text} | {'identifier': {...}}, 'base': {'name':..},
+       'index': {'name':..}, 'scale': 'k'}  ->  ("seg", segment, sdisp, base, index, scale) or ("other", why)."""
+    from osaca.parser.register import RegisterOperand
+    bad = ("other", "segment reference %r" % (o,))
+    sg = o.base
+    if not isinstance(sg, RegisterOperand) or sg.prefix is not None or sg.mask or sg.zeroing:
+        return bad
+    if o.offset is not None or o.index is not None or o.scale != 1 or o.mask is not None or o.pre_indexed or o.post_indexed \
+            or o.indexed_val is not None:
+        return bad
+    ext = o.segment_ext
+    if not isinstance(ext, list) or len(ext) != 1:
+        return bad
+    ext = ext[0]
+    if isinstance(ext, str):
+        return ("seg", sg.name, ("num", ext), None, None, 1)
+    if not isinstance(ext, dict) or not ext or not set(ext.keys()) <= {"offset", "base", "index", "scale"}:
+        return bad
+    disp = None
+    if "offset" in ext:
+        disp = _impl_sdisp(ext["offset"])
+        if disp is None:
+            return bad
+    regs = []
+    for k in ("base", "index"):
+        if k in ext:
+            n = _plain_reg_dict(ext[k])
+            if n is None:
+                return bad
+            regs.append(n)
+        else:
+            regs.append(None)
+    scale = 1
+    if "scale" in ext:
+        if ext["scale"] not in ("1", "2", "4", "8"):
+            return bad
+        scale = int(ext["scale"])
+    return ("seg", sg.name, disp, regs[0], regs[1], scale)
 
 
 def impl_line(parser, line, number=None):
@@ -333,29 +650,66 @@ def cq_opt_str(s):
     return "None" if s is None else "(Some %s)" % cq_str(s)
 
 
+def cq_sdisp(disp):
+    if disp is None:
+        return "SNone"
+    if disp[0] == "num":
+        return "(SNum %s)" % cq_str(disp[1])
+    return "(SId %s %s %s)" % (cq_str(disp[1]), cq_opt_str(disp[2]), cq_opt_str(disp[3]))
+
+
+def cq_disp(disp):
+    if disp is None:
+        return "DNone"
+    if disp[0] == "int":
+        return "(DInt %s)" % cq_z(disp[1])
+    if disp[0] == "id":
+        return "(DId %s)" % cq_str(disp[1])
+    return "(DIdR %s %s %s)" % (cq_str(disp[1]), cq_str(disp[2]), cq_opt_str(disp[3]))
+
+
 def cq_operand(o):
     k = o[0]
     if k == "reg":
         return "(OReg %s)" % cq_str(o[1])
+    if k == "regk":
+        return "(ORegK %s %s %s)" % (cq_str(o[1]), cq_str(o[2]), cq_bool(o[3]))
+    if k == "memk":
+        return "(OMemK %s %s %s %s %s)" % (cq_disp(o[1]), cq_opt_str(o[2]), cq_opt_str(o[3]), cq_z(o[4]), cq_str(o[5]))
+    if k == "idr":
+        return "(OIdR %s %s %s)" % (cq_str(o[1]), cq_str(o[2]), cq_opt_str(o[3]))
+    if k == "numlbl":
+        return "(ONumLbl %s (ascii_of_nat %d))" % (cq_str(o[1]), ord(o[2]))
+    if k == "star":
+        x = o[1]
+        return "(OStar (StReg %s))" % cq_str(x[1]) if x[0] == "reg" else "(OStar (StDisp %s))" % cq_sdisp(x)
     if k == "imm":
         return "(OImm %s)" % cq_z(o[1])
     if k == "id":
         return "(OId %s)" % cq_str(o[1])
+    if k == "seg":
+        _, sg, disp, base, index, scale = o
+        return "(OSeg %s %s %s %s %s)" % (cq_str(sg), cq_sdisp(disp), cq_opt_str(base), cq_opt_str(index), cq_z(scale))
     _, disp, base, index, scale = o
-    d = "DNone" if disp is None else ("(DInt %s)" % cq_z(disp[1]) if disp[0] == "int" else "(DId %s)" % cq_str(disp[1]))
-    return "(OMem %s %s %s %s)" % (d, cq_opt_str(base), cq_opt_str(index), cq_z(scale))
+    return "(OMem %s %s %s %s)" % (cq_disp(disp), cq_opt_str(base), cq_opt_str(index), cq_z(scale))
 
 
 def cq_oplay(lo):
-    return "(mkOplay %s %s %s %s %s %s %s %s %s %s %s)" % (
+    k = lo["k"]
+    kl = "(mkKlay %s %s %s %s %s %s %s %s %s %s)" % (cq_bool(k["star"]), cq_str(k["w_st"]), cq_bool(k["kpct"]),
+                                                    cq_str(k["wk1"]), cq_str(k["wk2"]), cq_str(k["wk3"]), cq_str(k["wk4"]),
+                                                    cq_str(k["wk5"]), cq_str(k["wk6"]), cq_str(k["wk7"]))
+    return "(mkOplay %s %s %s %s %s %s %s %s %s %s %s %s %s %s %s %s %s)" % (
         cq_bool(lo["hex"]), cq_bool(lo["upper"]), cq_bool(lo["omit1"]), cq_bool(lo["dollar"]), cq_str(lo["w_d"]), cq_str(lo["w_lp"]),
-        cq_str(lo["w_b"]), cq_str(lo["w_c1"]), cq_str(lo["w_i"]), cq_str(lo["w_c2"]), cq_str(lo["w_s"]))
+        cq_str(lo["w_b"]), cq_str(lo["w_c1"]), cq_str(lo["w_i"]), cq_str(lo["w_c2"]), cq_str(lo["w_s"]),
+        cq_str(lo["w_sg1"]), cq_str(lo["w_sg2"]), cq_str(lo["w_at"]), cq_str(lo["w_pl1"]), cq_str(lo["w_pl2"]), kl)
 
 
 def cq_layout(lay):
     ops = "[" + "; ".join("(%s, %s, %s)" % (cq_oplay(lo), cq_str(wb), cq_str(wa)) for lo, wb, wa in lay["ops"]) + "]"
     c = "None" if lay["comment"] is None else "(Some (%s, %s))" % (cq_bool(lay["comment"][0]), cq_str(lay["comment"][1]))
-    return "(mkLayout %s %s %s %s %s)" % (cq_str(lay["lead"]), cq_str(lay["gap"]), ops, cq_str(lay["trail"]), c)
+    pre = "[" + "; ".join("(%s, %s)" % (cq_bool(p), cq_str(w)) for p, w in lay.get("prefixes", [])) + "]"
+    return "(mkLayout %s %s %s %s %s %s)" % (cq_str(lay["lead"]), cq_str(lay["gap"]), ops, cq_str(lay["trail"]), c, pre)
 
 
 def cq_ast(ast):
